@@ -7,17 +7,32 @@
                 differ from the observed bytes;
     known class 1 = the sequence addresses the empty key (NoKV cannot store it). *)
 From Coq Require Export List NArith ZArith Bool String.
-From NoKV Require Export Base.Bytes Model.Resp Model.Redis Spec.RedisSpec Corr.Common.
+From NoKV Require Export Base.Bytes Model.Resp Model.Redis Spec.RedisSpec Spec.RedisMsSpec Corr.Common.
 Export ListNotations.
 Local Open Scope N_scope.
 
+(** [c_cmds]: (clock in milliseconds when the command was sent, arguments). *)
 Record case := { c_cmds : list (N * list bytes); c_replies : list bytes }.
 
+(** mismatch  = the faithful model (store arithmetic: whole seconds, floor, PX
+                bumped out of the current second), run on the seconds the
+                millisecond clocks lie in, does not predict the observed replies;
+    violation = the millisecond-precise reference (Spec/RedisMsSpec.v) does not;
+    known 1   = the sequence addresses the empty key (C29-F1);
+    known 2   = C29-F2: the model predicts the replies, and they agree with the
+                reference once deadlines are moved by less than 1000 ms
+                ([within_granularity]): a key treated as expired (or alive)
+                within one second of its millisecond deadline. *)
 Definition check (c : case) : verdict :=
-  let mr := snd (run current [] (c_cmds c)) in
-  mk_verdict (negb (replies_eqb (map encode_reply mr) (c_replies c)))
-             (negb (conforms_b (c_cmds c) (c_replies c)))
-             (if keys_nonempty (c_cmds c) then 0 else 1).
+  let secs := to_seconds (c_cmds c) in
+  let mr := snd (run current [] secs) in
+  let model_ok := replies_eqb (map encode_reply mr) (c_replies c) in
+  let ref_ok := conforms_ms_b 0 (c_cmds c) (c_replies c) in
+  mk_verdict (negb model_ok) (negb ref_ok)
+             (if ref_ok then 0
+              else if negb (keys_nonempty secs) then 1
+              else if model_ok && within_granularity (c_cmds c) (c_replies c) then 2
+              else 0).
 
 (* constructor helpers: printable byte strings as text, the rest as hex;
    [L]/[XL] append CR LF (reply lines). *)
@@ -29,7 +44,8 @@ Definition seg_bytes (g : seg) : bytes :=
   | L s => of_string s ++ [CR; LF]
   | XL s => unhex s ++ [CR; LF]
   end.
-Definition C (now : N) (args : list seg) : N * list bytes := (now, map seg_bytes args).
+Definition C (now : N) (args : list seg) : N * list bytes := (now * 1000, map seg_bytes args).
+Definition Cm (now_ms : N) (args : list seg) : N * list bytes := (now_ms, map seg_bytes args).
 Definition Cs (cmds : list (N * list bytes)) (replies : list (list seg)) : case :=
   {| c_cmds := cmds; c_replies := map (fun r => List.concat (map seg_bytes r)) replies |}.
 
